@@ -1,5 +1,6 @@
 import DriverLib.Util
 import PytmeModel.Model.C05
+import PytmeModel.Model.C05Batch
 open Lean Drv Pm Pm.C05
 namespace Drv.C05
 
@@ -149,5 +150,58 @@ def handle (op : String) (a : Json) : Option R :=
       let shape ← getNatList a "shape"
       pure (Json.mkObj [("separated", jBool (specSeparated md ps)),
                         ("inbounds", jBool (ps.all (inBoundsI shape)))])
+  | "c05.batchify" => some do
+      -- PeakCaller._batchify: (subset, offset) pairs in order, and the shape of scores[subset]
+      let shape ← getNatList a "shape"
+      let bd ← optNatList a "bd"
+      match bd with
+      | some b => if b.any (fun d => decide (shape.length ≤ d)) then throw "IndexError"
+      | none => pure ()
+      let jOpt : Option Nat → Json := fun o => match o with | some v => jNat v | none => Json.null
+      pure (jList ((batchify shape bd).map (fun sel =>
+        Json.mkObj [("sel", jList (sel.map jOpt)), ("off", jNats (selOffset sel)),
+                    ("shape", jNats (selShape shape sel))])))
+  | "c05.greedyB" => some do
+      -- filter_points_indices(coords, md, batch_dims=bd) on the numpy backend: kept row indices
+      let md ← getNat a "md"
+      let bd ← optNatList a "bd"
+      let cs ← getIntListList a "coords"
+      match bd with
+      | some b => if md ≠ 0 ∧ cs ≠ [] ∧ b.any (fun d => decide ((cs.headD []).length ≤ d)) then throw "IndexError"
+      | none => pure ()
+      let ps : List Peak := (List.range cs.length).map (fun i => ⟨cs.getD i [], i, 0⟩)
+      pure (jNats ((filterPointsB md bd ps).map (·.rot)))
+  | "c05.bucket" => some do
+      let md ← getNat a "md"
+      if md = 0 then throw "ZeroDivision"
+      pure (jNats (filterBucket md (← getIntListList a "coords")))
+  | "c05.mibl" => some do
+      let r := maxIndexByLabel (← getIntList a "labels") (← getIntList a "scores")
+      pure (jList (r.map (fun e => Json.arr #[jInt e.1, jNat e.2])))
+  | "c05.clusterKeep" => some do
+      pure (jNats (clusterKeep (← getIntList a "labels") (← getIntList a "scores")))
+  | "c05.clusterMerge" => some do
+      let ps ← peaksOf (← a.getObjVal? "peaks")
+      let labels ← getIntList a "labels"
+      if (← getBool a "byScore") then pure (jPeaks (clusterMergeByScore ps labels))
+      else
+        if ps.any (fun p => decide (p.pos.length < 3)) then throw "IndexError"
+        pure (jPeaks (clusterMerge ps labels))
+  | "c05.runB" => some do
+      let cfg ← getCfg a
+      let st ← stratOf (← getStr a "strategy")
+      if st = .fast ∧ cfg.minDist = 0 then throw "ZeroDivision"
+      let bd ← getNatList a "bd"
+      let subs ← (← getArr a "subs").toList.mapM getSub
+      if subs.any (fun s => bd.any (fun d => decide (s.scores.shape.length ≤ d))) then throw "IndexError"
+      pure (jList ((runTraceB cfg st bd [] subs).map jPeaks))
+  | "c05.mergeB" => some do
+      let cfg ← getCfg a
+      let bd ← getNatList a "bd"
+      let off ← optIntList a "offset"
+      let parts ← (← getArr a "parts").toList.mapM (fun j => match j with
+        | .null => pure (none : Option (List Peak))
+        | v => do pure (some (← peaksOf v)))
+      pure (jPeaks (mergeB cfg bd off [] parts))
   | _ => none
 end Drv.C05
